@@ -49,12 +49,22 @@ func runC13With(c *c13Case, srv *c13Server, server *lime.Server, env *c13Env) *c
 	var consumers sync.WaitGroup
 	consumersDone := make(chan struct{})
 	var cliSend func(ctx context.Context, m *lime.Message) error
+	var dialedMu sync.Mutex
+	var dialed []lime.Transport // what the high-level Client dialled
 	switch c.Wiring {
 	case "client":
 		cfg := lime.NewClientConfig()
 		cfg.Node = lime.Node{Identity: lime.Identity{Name: "alice", Domain: "cli.example"}, Instance: "home"}
 		cfg.ChannelBufferSize = c.ChanBuf
-		cfg.NewTransport = func(ctx context.Context) (lime.Transport, error) { return env.dial(ctx) }
+		cfg.NewTransport = func(ctx context.Context) (lime.Transport, error) {
+			t, err := env.dial(ctx)
+			if err == nil {
+				dialedMu.Lock()
+				dialed = append(dialed, t)
+				dialedMu.Unlock()
+			}
+			return t, err
+		}
 		cfg.EncryptSelector = env.encSel
 		cfg.CompSelector = lime.NoneCompressionSelector
 		cfg.Authenticator = lime.GuestAuthenticator
@@ -157,8 +167,27 @@ func runC13With(c *c13Case, srv *c13Server, server *lime.Server, env *c13Env) *c
 		}
 		obs.InitiatorConnAtRet = ct.Connected()
 	case "client-close":
+		var unstick func()
+		if c.PeerStuck {
+			// the server's dispatch loop enters a handler and stays there: the finishing envelope will not be answered
+			g := make(chan struct{})
+			srv.stuck.Store(g)
+			unstick = func() { srv.stuck.Store((chan struct{})(nil)); close(g) }
+			ctx, cancel := context.WithTimeout(context.Background(), time.Second)
+			_ = client.SendMessage(ctx, c13Message("stick"))
+			cancel()
+			env.wait()
+		}
 		if err := client.Close(); err != nil {
 			obs.TermErr = err.Error()
+		}
+		dialedMu.Lock()
+		for _, t := range dialed {
+			obs.InitiatorConnAtRet = obs.InitiatorConnAtRet || t.Connected()
+		}
+		dialedMu.Unlock()
+		if unstick != nil {
+			unstick()
 		}
 	case "server-finish":
 		if err := sc.FinishSession(tctx); err != nil {
@@ -316,6 +345,9 @@ func genC13(rt *rapid.T, transports []string) *c13Case {
 	}
 	if c.Wiring == "client" {
 		c.Initiator = rapid.SampledFrom([]string{"client-close", "server-close", "server-finish", "server-fail"}).Draw(rt, "initiator")
+		if c.Initiator == "client-close" {
+			c.PeerStuck = rapid.IntRange(0, 2).Draw(rt, "peerStuck") == 0
+		}
 	} else {
 		c.Initiator = rapid.SampledFrom([]string{"client-finish", "server-finish", "server-fail", "server-close"}).Draw(rt, "initiator")
 	}
